@@ -66,7 +66,12 @@ def run_case(case, trace_lines=True):
         chooser = detsched.chooser_from_list([r.randint(0, hi) for _ in range(3000)])
     else:
         chooser = detsched.chooser_preemptions(sch['points'])
-    sched = detsched.Scheduler(chooser, trace_files=[pu.__file__] if trace_lines else [])
+    trace = [pu.__file__] if trace_lines else []
+    if case.get('trace_core'):
+        # also every source line of core.py executed by the pipeline (worker threads run __getitem__ chains there)
+        import lazy_dataset.core as _core
+        trace.append(_core.__file__)
+    sched = detsched.Scheduler(chooser, trace_files=trace)
     raised = {}
     none_at = set(case.get('none_at', []))
 
@@ -126,6 +131,10 @@ def run_case(case, trace_lines=True):
         vals = [('v', i) for i in range(n)]
         if case.get('src') == 'dict' or case.get('with_key'):
             ds = lazy_dataset.new({key_of(i): v for i, v in enumerate(vals)})
+        elif case.get('src') == 'concat' and n >= 2:
+            h = max(1, n // 3)
+            parts = [lazy_dataset.new(vals[:h]), lazy_dataset.new(vals[h:n - 1]), lazy_dataset.new(vals[n - 1:])]
+            ds = lazy_dataset.concatenate(*[p for p in parts if len(p)])
         else:
             ds = lazy_dataset.new(vals)
         if kind == 'pf2':
@@ -211,6 +220,10 @@ def run_case(case, trace_lines=True):
             else:
                 del it
                 gc.collect()
+        if case.get('epochs'):
+            tr.epochs = [list(tr.delivered)]
+            for _ in range(case['epochs'] - 1):
+                tr.epochs.append(list(make_iterable.obj))
         sched.event('returned', None, yield_after=False)
         tr.unfinished_at_return = sched.unfinished()
         sched.quiesce()
@@ -286,6 +299,19 @@ def judge_values(tr, check_len=True):
         if len(want) >= k:
             want, fail_pos, ename = want[:k], None, None
     got = tr.delivered
+    if c.get('shuffled') and c.get('epochs'):
+        # fault-free, seeded: every epoch must be exactly the permutation the seeded generator yields for it
+        import numpy as np
+        rs = np.random.RandomState(c['shuffled'])
+        perm = np.arange(c['n'])
+        for e, got_e in enumerate(tr.epochs):
+            rs.shuffle(perm)
+            want_e = [result_value(c, int(i)) for i in perm]
+            if got_e != want_e:
+                raise Violation(f'epoch-order-wrong|{c["kind"]}-shuffled',
+                                f'{describe(tr)}\nepoch {e}: delivered {got_e}\nthe equally seeded sequential '
+                                f'pipeline delivers {want_e}')
+        return
     if c.get('shuffled'):
         # random order: every failing example is caught (by construction of the case), compare as multisets
         if tr.exc is not None or sorted(map(repr, got)) != sorted(map(repr, want)):
@@ -460,7 +486,18 @@ def st_case(draw, profile):
                 case.pop('with_key', None)
             if case['catch'] is not False:
                 case.pop('with_key', None) if w > 1 else None
-    if profile == 'plain' and kind == 'pf' and draw(st.integers(0, 2)) == 0:
+    if profile == 'plain' and kind in ('pf', 'pm') and n >= 2 and 'with_key' not in case and draw(st.integers(0, 3)) == 0:
+        case['src'] = 'concat'
+        case['trace_core'] = draw(st.booleans())
+    if profile == 'plain' and kind == 'pf' and n >= 2 and draw(st.integers(0, 3)) == 0:
+        # a seeded per-epoch reshuffle below the prefetch, several epochs over the same object
+        case['shuffled'] = draw(st.integers(1, 99))
+        case['epochs'] = 2
+        case.pop('with_key', None)
+        case.pop('dual', None)
+        case.pop('none_at', None)
+        case['src'] = 'list'
+    elif profile == 'plain' and kind == 'pf' and draw(st.integers(0, 2)) == 0:
         # catching enabled, nothing raises: still every example (also a None example) exactly once
         case['catch'] = draw(st.sampled_from([True, 'VErrA']))
         if w > 1:
